@@ -69,4 +69,22 @@ def init():
 
     act.tqdm = FakeTqdm
     logging.disable(logging.CRITICAL)
+    global _decimal_context
+    import decimal
+
+    _decimal_context = decimal.getcontext().copy()  # as demeter's import left it (prec = 35)
     _done = True
+
+
+_decimal_context = None
+
+
+def reset_process_state():
+    """Every scenario starts from the process state demeter's import left behind.  The only process-global state the
+    simulated code can reach is the thread's Decimal context; without this reset a scenario's outcome could depend
+    on which scenarios the same worker process ran before it (no replay), and a leak *inside* a scenario - e.g. a
+    read-only helper that changes the global precision - could not be told from one inherited from an earlier run."""
+    import decimal
+
+    if _decimal_context is not None:
+        decimal.setcontext(_decimal_context.copy())
